@@ -349,6 +349,25 @@ func (c *Ctx) rangeVisitors() []*types.Named {
 func isEmptyFreshMap(v ssa.Value) bool {
 	mm, ok := v.(*ssa.MakeMap)
 	if !ok {
+		// a tiny constructor: a static call all of whose results are fresh empty maps
+		if call, isCall := v.(*ssa.Call); isCall {
+			if g := call.Common().StaticCallee(); g != nil && len(g.Blocks) > 0 && len(g.Blocks) <= 3 && g.Signature.Results().Len() == 1 {
+				n := 0
+				for _, ret := range returnsOf(g) {
+					rv, ok := returnedValue(ret, 0)
+					if !ok {
+						return false
+					}
+					for _, og := range origins(rv) {
+						if _, isMM := og.(*ssa.MakeMap); !isMM || !isEmptyFreshMap(og) {
+							return false
+						}
+						n++
+					}
+				}
+				return n > 0
+			}
+		}
 		return false
 	}
 	for _, r := range realReferrers(mm) {
@@ -2025,4 +2044,146 @@ func rulePLAN10(c *Ctx) []Ob {
 		}
 	}
 	return o.list
+}
+
+// ---------------------------------------------------------------- SORT4
+
+// SORT4: the sort-option normaliser keeps every option: its loop over the
+// options is left only when the options are exhausted (no break / return from
+// the body), every trip round the loop appends one option, and the appended
+// option's Field is the Field of the element visited. (Dropping "redundant"
+// options after _id also drops _id when the exit sits before the append.)
+func ruleSORT4(c *Ctx) []Ob {
+	o := newObs(c, "SORT4")
+	var norm *ssa.Function
+	for _, fn := range c.LibFuncs {
+		if c.pkgRel(fn) != "query" || fn.Parent() != nil || fn.Signature.Results().Len() != 1 || len(fn.Params) != 1 {
+			continue
+		}
+		sl, ok := fn.Params[0].Type().Underlying().(*types.Slice)
+		rs, ok2 := fn.Signature.Results().At(0).Type().Underlying().(*types.Slice)
+		if ok && ok2 && c.libNamedIs(sl.Elem(), "query", "SortOption") && c.libNamedIs(rs.Elem(), "query", "SortOption") {
+			norm = fn
+		}
+	}
+	if norm == nil {
+		o.add(INFO, "normaliser", "-", "no func([]SortOption) []SortOption in package query")
+		return o.list
+	}
+	pos := relPath(c, norm.Pos())
+	// the loop that indexes the parameter
+	var header *ssa.BasicBlock
+	var body map[*ssa.BasicBlock]bool
+	for _, b := range norm.Blocks {
+		for _, in := range b.Instrs {
+			if ia, ok := in.(*ssa.IndexAddr); ok && ia.X == ssa.Value(norm.Params[0]) {
+				header, body = c.innermostLoop(b)
+			}
+		}
+	}
+	key := c.fname(norm) + "/keeps every option"
+	if header == nil {
+		o.add(UNDECIDED, key, pos, "no loop over the options found")
+		return softenUndecided(o.list)
+	}
+	// (1) exits only from the header
+	for b := range body {
+		if b == header {
+			continue
+		}
+		for _, s := range b.Succs {
+			if !body[s] {
+				o.add(VIOLATED, key, relPath(c, b.Instrs[len(b.Instrs)-1].Pos()), "the loop over the options is left from its body (break or return) before the options are exhausted: the remaining sort options - and, if the exit precedes the append, the current one - are dropped")
+				return o.list
+			}
+		}
+	}
+	// (2) every trip appends
+	cut := map[*ssa.BasicBlock]bool{}
+	fieldOK := true
+	nAppend := 0
+	for b := range body {
+		for _, in := range b.Instrs {
+			call, ok := in.(*ssa.Call)
+			if !ok {
+				continue
+			}
+			if bi, ok := call.Common().Value.(*ssa.Builtin); !ok || bi.Name() != "append" {
+				continue
+			}
+			cut[b] = true
+			nAppend++
+			// the appended element's Field
+			for _, og := range origins(call.Common().Args[1]) {
+				sl, ok := og.(*ssa.Slice)
+				if !ok {
+					continue
+				}
+				al, ok := sl.X.(*ssa.Alloc)
+				if !ok {
+					continue
+				}
+				for _, r := range realReferrers(al) {
+					ia, ok := r.(*ssa.IndexAddr)
+					if !ok {
+						continue
+					}
+					for _, rr := range realReferrers(ia) {
+						fa, ok := rr.(*ssa.FieldAddr)
+						if !ok {
+							continue
+						}
+						if _, f, _ := fieldOfAddr(fa); f != "Field" {
+							continue
+						}
+						for _, r3 := range realReferrers(fa) {
+							if st, ok := r3.(*ssa.Store); ok && st.Addr == ssa.Value(fa) {
+								okf := false
+								for _, fo := range origins(st.Val) {
+									if _, lf, ln := fieldLoad(fo); lf == "Field" && ln != nil && c.libNamedIs(ln, "query", "SortOption") {
+										okf = true
+									}
+								}
+								if !okf {
+									fieldOK = false
+								}
+							}
+						}
+					}
+				}
+			}
+		}
+	}
+	skip := false
+	seen := map[*ssa.BasicBlock]bool{}
+	var stack []*ssa.BasicBlock
+	for _, s := range header.Succs {
+		if body[s] {
+			stack = append(stack, s)
+		}
+	}
+	for len(stack) > 0 {
+		x := stack[len(stack)-1]
+		stack = stack[:len(stack)-1]
+		if x == header {
+			skip = true
+			break
+		}
+		if seen[x] || cut[x] || !body[x] {
+			continue
+		}
+		seen[x] = true
+		stack = append(stack, x.Succs...)
+	}
+	switch {
+	case nAppend == 0:
+		o.add(UNDECIDED, key, pos, "no append in the loop over the options")
+	case skip:
+		o.add(VIOLATED, key, pos, "a trip round the loop over the options can end without appending an option (continue before the append): that sort option is dropped")
+	case !fieldOK:
+		o.add(VIOLATED, key, pos, "the Field of an appended option is not the Field of the option being visited")
+	default:
+		o.add(OK, key, pos, "the loop ends only when the options are exhausted, every trip appends one option carrying the visited option's Field")
+	}
+	return softenUndecided(o.list)
 }
